@@ -68,6 +68,10 @@ func (p Presented) blobReader() io.Reader {
 		return iotest.DataErrReader(bytes.NewReader(b))
 	case "half":
 		return iotest.HalfReader(bytes.NewReader(b))
+	case "error-at-end": // every byte of the blob is delivered, then the source fails instead of ending
+		return io.MultiReader(bytes.NewReader(b), iotest.ErrReader(errors.New("scripted read failure after the blob's bytes")))
+	case "error-in-the-middle":
+		return io.MultiReader(bytes.NewReader(b[:len(b)/2]), iotest.ErrReader(errors.New("scripted read failure in mid-stream")))
 	}
 	return bytes.NewReader(b)
 }
@@ -439,6 +443,11 @@ func oracleFor(c *Case, env []byte) (string, string) {
 	}
 	t := pl.TargetArtifact
 	p := c.Presented
+	if p.Kind == "blob" && strings.HasPrefix(p.Reader, "error-") && c.Entry == "notation.VerifyBlob" {
+		// the blob's source failed: what it would have delivered is unknown, so nothing can have been
+		// established about "the artifact under verification"
+		return "C01:success-although-blob-unreadable:" + p.Reader, "verification succeeded although reading the blob failed"
+	}
 	if p.Kind == "oci" {
 		if t.Digest != p.Digest || t.Size != p.Size || t.MediaType != p.MediaType {
 			return "C01:success-for-different-artifact:oci:" + c.Entry, fmt.Sprintf("signed target (%s %s %d) differs from the presented descriptor (%s %s %d)", t.MediaType, t.Digest, t.Size, p.MediaType, p.Digest, p.Size)
@@ -642,7 +651,7 @@ func TestC01_Bound(t *testing.T) {
 			c.Envelope, c.Detail = byteMutate(rt, c.Format, e0)
 		}
 		if kind == "blob" {
-			c.Presented.Reader = rp.Pick(rt, "reader", "bytes", "bytes", "multi-split", "multi-split", "one-byte", "data-with-eof", "half")
+			c.Presented.Reader = rp.Pick(rt, "reader", "bytes", "bytes", "multi-split", "multi-split", "one-byte", "data-with-eof", "half", "error-at-end", "error-in-the-middle")
 			c.Presented.SplitAt = len(art.blob) // a prefix Read returns exactly the blob that was signed
 		}
 		if c.Entry == "notation.Verify" && rapid.Bool().Draw(rt, "decoys") {
